@@ -169,10 +169,10 @@ def check(run):
     rng = random.Random(run.seed + 1)
     if run.tier == 'quick':
         designs = vdesigns.library_designs(widths=(1, 2, 3), rng=rng, frac=0.22)
-        ncomp, cycles, limit = 60, 24, 64
+        ncomp, cycles, limit, npair = 60, 24, 64, 40
     else:
         designs = vdesigns.library_designs(widths=(1, 2, 3, 4), rng=rng, frac=1.0)
-        ncomp, cycles, limit = 1500, 60, 256
+        ncomp, cycles, limit, npair = 1500, 60, 256, 1000
     judge(run, gather(run, designs, rng, cycles, limit), 'lib')
     comps = []
     with quiet():
@@ -182,6 +182,9 @@ def check(run):
             except Exception:
                 pass
     judge(run, gather(run, comps, rng, cycles, limit), 'comp')
+    with quiet():
+        pairs = vdesigns.pair_designs(rng, npair)
+    judge(run, gather(run, pairs, rng, cycles, limit), 'pair')
     run.assumptions += ['VerilogSem.tla is a transcription of IEEE 1364-2005 for the emitted subset (two-state; never-initialised storage '
                         'reads 0); no third-party Verilog simulator is available to cross-check it',
                         'black-box external IP and gated-clock bodies are outside the designs']
